@@ -206,7 +206,7 @@ def gen(rng, tier):
             yield {"op": "pv", "stream": "float", "p1": t[0], "p2": t[1], "v": [x / m * vs for x in v], "d": d}
 
     # fit_from_points -------------------------------------------------------------------------------
-    kinds = ["generic", "generic", "nearly-planar", "planar", "collinear", "lattice", "three", "lattice-planar", "two"]
+    kinds = ["generic", "generic", "nearly-planar", "planar", "collinear", "lattice", "three", "lattice-planar", "two", "far-nearly-planar"]
     for i in range(n_fit):
         kind = kinds[i % len(kinds)]
         if i % 40 == 39:
@@ -511,6 +511,10 @@ def cloud(spec):
     R = rand_rot(rng)
     sig = sorted([10.0 ** rng.uniform(-1.5, 0) for _ in range(3)], reverse=True)
     sig[0] = 1.0
+    if kind == "far-nearly-planar":
+        # centroid far from the origin compared with the cloud's own spread (a one-pass covariance would cancel)
+        off = A(gens.unit(rng)) * S * 10.0 ** rng.uniform(4, 6)
+        sig[2] = 10.0 ** rng.uniform(-3, -2)
     if kind == "nearly-planar":
         sig[2] = 10.0 ** rng.uniform(-7, -4)
     elif kind == "planar":
